@@ -108,7 +108,7 @@ theorem outerAll_state (igs : List (Directive D)) (st : List (D × Bool)) :
     simp only [outerLoop, innerAll_state, ih, List.map_map, List.any_cons]
     apply List.map_congr_left
     intro p _
-    simp [Function.comp_def, Bool.or_assoc]
+    simp [Bool.or_assoc]
 
 theorem any_perm {α : Type} {l l' : List α} (h : l.Perm l') (q : α → Bool) : l.any q = l'.any q := by
   rw [Bool.eq_iff_iff]
